@@ -28,6 +28,7 @@
 #include <signal.h>
 #include <sys/socket.h>
 #include <netinet/in.h>
+#include <ucontext.h>
 
 #ifndef V_MAXSZ
 #define V_MAXSZ ((size_t)1 << 40)   /* object sizes are below this by precondition of the specs */
